@@ -981,6 +981,15 @@ func runC05(r *Rand, tier string, o *Out) {
 		o.Fail("calls after a call whose arguments could not be encoded: "+why, "gen.objects 3 => "+out+" "+tail(lastFailDetail, 400))
 	}
 	o.Count("scenario:call-after-a-failed-encode")
+	// a proxy bound to a context, and the proxy it was derived from
+	if out := o.Do("P", "gen.objects 4", true); out != "ok" {
+		why := strings.TrimPrefix(out, "fail:")
+		if k := strings.Index(why, ":"); k > 0 {
+			why = why[:k]
+		}
+		o.Fail("a proxy bound to a context: "+why, "gen.objects 4 => "+out+" "+tail(lastFailDetail, 400))
+	}
+	o.Count("scenario:proxy-bound-to-a-context")
 	// lists of objects as an argument and as a result (a listed finding)
 	o.Do("X", "gen.objectsx 2", true)
 	if c05LastObjX != "ok" {
